@@ -63,6 +63,20 @@ def same(run, a, b, label, detail):
         run.check_near(a, b, EPS_MONEY, label, detail)
 
 
+def digest(root):
+    """light whole-tree digest: root value/cash rows and every security's position rows"""
+    C = bt().core
+    out = []
+    for nm in ('_values', '_cash', '_prices'):
+        ser = getattr(root, nm)
+        out += [('%s@%s' % (nm, i), ser.iloc[k]) for k, i in enumerate(ser.index)]
+    for m in root.members:
+        if isinstance(m, C.SecurityBase):
+            ser = m._positions
+            out += [('%s.pos@%s' % (m.full_name, i), ser.iloc[k]) for k, i in enumerate(ser.index)]
+    return out
+
+
 def path_of(n):
     p = []
     while n.parent is not n:
@@ -130,6 +144,15 @@ def h_fresh(run, cfg):
             if r1.bankrupt or r2.bankrupt:
                 run.end('bankrupt')
             same(run, a, b, 'fresh-read:' + name, '%s.%s' % (n.full_name, name))
+            # the read itself must leave the tree exactly as an explicit update does (clock, recorded rows)
+            if cfg.get('digest'):
+                try:
+                    r1.update(r1.now)
+                except Exception:
+                    run.end('raised')
+            run.check(r1.now == r2.now, 'read-leaves-clock-alone:' + name, '%s.%s moved now to %s (expected %s)' % (n.full_name, name, r1.now, r2.now))
+            if cfg.get('digest'):
+                same(run, digest(r1), digest(r2), 'read-equals-explicit-update:' + name, 'tree after reading %s.%s' % (n.full_name, name))
             if isinstance(a, list):
                 run.check(len(a) <= npos, 'series-not-beyond-now:' + name, '%s.%s has %d rows, now is row %d' % (n.full_name, name, len(a), npos))
     # ---- idempotence
@@ -191,4 +214,16 @@ def plan(tier):
                     if shape in ('S3', 'S4') and quick:
                         cfg.update(fresh_nodes=['', 'sub', 'sub/a'])
                     tasks.append(dict(harness='fresh', cfg=cfg, opts=opts))
+    # sequences that must always be present: a date change followed by an un-synced trade / adjustment (flat securities lag the clock)
+    must = [(['next'], ['transact', 'b']), (['next'], ['adjust']), (['next'], ['transact', 'a'])]
+    for seq in must:
+        for integer in (0, 1):
+            for cfg in _cfgs('S1', seq, integer, tier)[:1]:
+                tasks.append(dict(harness='fresh', cfg=cfg, opts=opts))
+    # fixed-income tree with a zero-price episode, no commission, no bid/offer: zero-cost trades must still refresh notionals and weights
+    for seq in [(['next'], ['transact', 'a']), (['next'], ['transact', 'b']), (['transact', 'a'], ['transact', 'c']), (['next'], ['adjust'])]:
+        for integer in (0, 1):
+            cfg = dict(shape='F1', int=integer, fee=['none', None], spread=0, ops=[list(o) for o in seq], mult=1, pgrid='zeroa', ndates=4,
+                       fresh_nodes=['', 'a', 'c'])
+            tasks.append(dict(harness='fresh', cfg=cfg, opts=opts))
     return tasks
